@@ -10,7 +10,8 @@ From E57 Require Import Base.Prelude Model.Device Model.PagedWriter Model.Record
   Proofs.SpecWriter Proofs.SpecWriterOk Proofs.SpecC02.
 From Coq Require Import Permutation.
 From E57 Require Import Model.Meta Model.MetaFile Model.XmlTree Model.XmlParse Model.XmlExtract
-  Spec.FileSpecXml Spec.XmlRender Spec.MetaTree Proofs.SpecXml Proofs.SpecXmlExample.
+  Spec.FileSpecXml Spec.XmlRender Spec.MetaTree Spec.XeMetaOk Proofs.SpecXml Proofs.SpecXmlExample
+  Proofs.SpecProtoValues Proofs.SpecProtoFinal.
 From E57 Require Import Base.Floats Model.XmlGen Spec.XgWriterOk Spec.XeMetaOk Model.WriterApi Model.WriterFull
   Proofs.WapiFullProg Proofs.WapiFullMeta Proofs.WapiFullInv Proofs.WapiSpec Proofs.WapiFullExample Proofs.WapiSpecExample.
 
@@ -115,7 +116,9 @@ Proof. exact writer_ok_file_wellformed_instance. Qed.
     reader's extractors return [m'] on it, [Hdesc] that metadata lists exactly the sections the
     binary writer published (the XML lists point clouds first and image blobs second, the file
     interleaves them: a permutation; [rest] = sections the XML does not mention, i.e. blobs
-    added with [add_blob] that no image refers to).  [pf64], [pf32], [fdiv] are the float oracles of the
+    added with [add_blob] that no image refers to), [Hproto] the sample value of every prototype
+    element lies within the element's own limits ([C02_prototype_values_in_bounds] derives it
+    from conditions on [m]; [spec_wellformed_xml] checks it on the parsed tree of the file).  [pf64], [pf32], [fdiv] are the float oracles of the
     extractors (the descriptors contain no floats).  Each extracted descriptor decodes to the
     content of the item that published it. *)
 Theorem C02_wellformed_xml : forall (pf64 pf32 : xstr -> option N) (fdiv : N -> Z -> N)
@@ -125,7 +128,8 @@ Theorem C02_wellformed_xml : forall (pf64 pf32 : xstr -> option N) (fdiv : N -> 
   let xml := render c (tree_of m) in
   forall (Hwf : wf_doc (tree_of m) = true)
          (Hext : extract_all pf64 pf32 fdiv (tree_of m) = Ok m')
-         (Hdesc : Permutation (meta_descriptors m' ++ rest) (item_descriptors is outs)),
+         (Hdesc : Permutation (meta_descriptors m' ++ rest) (item_descriptors is outs))
+         (Hproto : proto_values_ok pf64 pf32 (tree_of m) = true),
   wrun (file_prog is xml) pw0 = (s, Ok outs) ->
   let f := d_bytes (pw_dev (fst (pw_flush s))) in
   len f < 2 ^ 64 ->
@@ -136,6 +140,20 @@ Theorem C02_wellformed_xml : forall (pf64 pf32 : xstr -> option N) (fdiv : N -> 
     forall d cnt, In (d, cnt) (combine (meta_descriptors m') cs) ->
                   In (d, cnt) (combine (item_descriptors is outs) (map item_content is)).
 Proof. exact writer_file_wellformed_xml. Qed.
+
+(** [Hproto] from conditions on the metadata: the text [tree_of] puts into a prototype element
+    (the minimum; without a minimum a negative maximum; else 0) is a value of the element's type
+    within the element's own limits.  [float_limits_ordered]: float limits representable, not
+    NaN, minimum <= maximum - what [validate_prototype] guarantees since /repo eaf8fc6 (before,
+    [Single{min: 5, max: 1}] was accepted and written with the value 5 above its maximum:
+    reported finding); integer limits are covered by [meta_ok]; the oracles invert the stored
+    float texts ([float_oracle_ok]) and read "0" as +0.0. *)
+Theorem C02_prototype_values_in_bounds : forall (pf64 pf32 : xstr -> option N) (m : file_meta),
+  XeMetaOk.meta_ok m = true -> float_oracle_ok pf64 pf32 m = true ->
+  pf64 [48] = Some 0 -> pf32 [48] = Some 0 ->
+  float_limits_ordered m = true ->
+  proto_values_ok pf64 pf32 (MetaTree.tree_of m) = true.
+Proof. exact tree_of_proto_values_ok. Qed.
 
 (** Non-vacuity: an image blob of 1019 bytes and a point cloud, the writer's own rendering. *)
 Theorem C02_wellformed_xml_instance :
@@ -154,8 +172,10 @@ Proof. exact writer_file_wellformed_xml_instance. Qed.
     on the XML length (the independent decoder has none): a complete program ([units]: every
     sub-writer finalized and dropped, explicit limits for intensity / colour) of calls that are
     values of their Rust types ([call_ok]) in which every call returned Ok; u64 / count sizes;
-    the float oracles print plain texts that parse back.  The three named hypotheses of
-    [C02_wellformed_xml] and its [item_typed] are DISCHARGED: [Hwf], [Hext] from the metadata
+    the float oracles print plain texts that parse back and read "0" as +0.0.  The named hypotheses of
+    [C02_wellformed_xml] (now four, with [Hproto]: from the metadata invariant - float limits of
+    accepted prototypes are numbers with minimum <= maximum and f32 / f64 bit patterns ([call_ok]) -
+    and the oracles reading "0" as +0.0) and its [item_typed] are DISCHARGED: [Hwf], [Hext] from the metadata
     invariant of the state machine, [Hdesc] from [explains] (the descriptors the state holds are
     the ones the binary items were published with; [rest] = free-standing blobs and image blobs
     replaced by a later call).  [f] is what is on the device after the flush of [Drop].  The
@@ -168,6 +188,7 @@ Theorem C02_api_wellformed : forall (fmt64 fmt32 : N -> xstring) (pf64 pf32 : xs
   (forall b, plain_text (fmt64 b) = true) -> (forall b, plain_text (fmt32 b) = true) ->
   (forall b, pf64 (fmt64 b) = Some (canon64 b)) -> (forall b, pf32 (fmt32 b) = Some (canon32 b)) ->
   string_ok (lib_version_text version) = true ->
+  pf64 [48] = Some 0 -> pf32 [48] = Some 0 ->
   forall guid tops s st rs,
   units tops ->
   Forall call_ok (NewWriter guid :: tops ++ [Finalize]) ->
@@ -215,3 +236,4 @@ Print Assumptions C02_wellformed_xml.
 Print Assumptions C02_wellformed_xml_instance.
 Print Assumptions C02_api_wellformed.
 Print Assumptions C02_api_wellformed_instance.
+Print Assumptions C02_prototype_values_in_bounds.
